@@ -59,6 +59,7 @@ fn geometry_list(ctx: &Ctx, rng: &mut Rng) -> Vec<Geom> {
                 }
                 g.part_type = if fat32 { *rng.pick(&[0x0Bu8, 0x0C]) } else { *rng.pick(&[0x04u8, 0x06, 0x0E]) };
                 g.tail = if spc > 1 { rng.below(spc as u64) as u32 } else { 0 };
+                g.mbr_len_extra = *rng.pick(&[0u32, 0, 1, 5, 64, 1000]);
                 g.fat_extra = rng.below(3) as u32;
                 if fat32 {
                     g.root_cluster = *rng.pick(&[2u32, 5, clusters + 1, 2 + clusters / 2]);
